@@ -218,31 +218,4 @@ old_palette_shape!(k_old11_chunk_10, 10, true, 6, true);
 old_palette_shape!(k_old04_chunk_2, 2, false, 3, true);
 old_palette_shape!(k_old11_chunk_13, 13, true, 7, true);
 
-crate::verif_harness! {
-    /// validate_indexed_pixels(px) is Ok iff every pixel index is a palette entry (3 pixels, palette of
-    /// up to 3 entries at symbolic, possibly sparse, indices).
-    #[kani::stub(std::fmt::format, crate::verif_spec::stubs::format_stub)]
-    #[kani::unwind(6)]
-    fn k_validate_indexed(s) {
-        let mut pal = ColorPalette { entries: Default::default() }; // whatever map type `entries` is
-        let ids = [s.u32(), s.u32(), s.u32()];
-        let n = s.usize();
-        s.assume(n <= 3);
-        let mut i = 0;
-        while i < n {
-            pal.entries.insert(ids[i], ColorPaletteEntry { id: ids[i], rgba8: [1, 2, 3, 4], name: None });
-            i += 1;
-        }
-        let px: [u8; 3] = s.bytes();
-        let inpal = |p: u8| (0..n).any(|k| ids[k] == p as u32);
-        let want = inpal(px[0]) && inpal(px[1]) && inpal(px[2]);
-        assert!(pal.validate_indexed_pixels(&px).is_ok() == want, "Ok iff every index is in the palette");
-        crate::vcover!(want && n == 2, "accepted");
-        crate::vcover!(!want && n == 3, "rejected");
-        core::mem::forget(pal);
-    }
-}
-
-pub(crate) fn mk_entry(id: u32, rgba: [u8; 4]) -> ColorPaletteEntry {
-    ColorPaletteEntry { id, rgba8: rgba, name: None }
-}
+// (the Kani shape for validate_indexed_pixels was dropped for the same reason; Verus obligation v_validate_indexed.)
